@@ -107,6 +107,10 @@ type reqCase struct {
 	Body   []byte        `json:"body"`
 	Probe  string        `json:"probe"`   // inssvc.HTTPKinds entry sent afterwards
 	ProbeN int           `json:"probe_n"` // rows of the probe
+	// Fill, when set, makes the wire body wrap(Body + Unit x N + Tail) (client.go).
+	Fill *fillSpec `json:"fill,omitempty"`
+	// Client, when set, sends the request a first time through a client that aborts.
+	Client *clientSpec `json:"client,omitempty"`
 }
 
 // uni draws a near-uniform index below n. rapid's integer generators favour small values
@@ -751,8 +755,35 @@ func genReq(thorough bool) func(rt *rapid.T) reqCase {
 			b.ct, b.query = native.ct, native.query
 		}
 
+		// the client: three in ten requests are first sent by a client that gives up on the
+		// way; most of those (and a few complete ones) carry a body of several buffers of the
+		// streaming decoders, so that the parser is in the middle of it when the client goes
+		var fill *fillSpec
+		var head []byte
+		if uni(rt, "client", 10) >= 7 {
+			c.Client = &clientSpec{
+				Mode:  pick(rt, "abort-mode", abortModes),
+				At:    pick(rt, "abort-at", []int{0, 1, 10, 100, 250, 500, 500, 750, 900, 990, 999, 1000}),
+				Piece: pick(rt, "abort-piece", []int{1, 100, 4096, 65536, 65536, 100000, 1 << 20}),
+				Reset: uni(rt, "abort-reset", 4) == 3,
+			}
+			if c.Client.At > 1 && c.Client.At < 999 {
+				c.Client.At += rapid.IntRange(-1, 1).Draw(rt, "abort-at-jitter") * rapid.IntRange(0, 40).Draw(rt, "abort-at-delta")
+			}
+			if !foreign && uni(rt, "abort-fill", 4) > 0 {
+				head, fill = fillFor(rt, family, b, thorough)
+			}
+		} else if !foreign && uni(rt, "complete-fill", 30) == 29 {
+			head, fill = fillFor(rt, family, b, thorough)
+		}
+
 		// damage
-		switch k := uni(rt, "damage", 20); {
+		k := uni(rt, "damage", 20)
+		if fill != nil {
+			k = 0
+			c.Muts = append(c.Muts, "fill")
+		}
+		switch {
 		case k < 3: // none: a well-formed request
 			c.Muts = append(c.Muts, "valid")
 		case k < 6 && (family == "otlp-traces" || family == "zipkin" || family == "zipkin-nd"):
@@ -892,6 +923,9 @@ func genReq(thorough bool) func(rt *rapid.T) reqCase {
 				ce = headerSafe(gen.HostileStr(rt, "ce-hostile", gen.StrOpt{Max: 20}))
 			}
 		}
+		if fill != nil {
+			ce = "" // the filled body is assembled when it is sent
+		}
 		if ce != "" {
 			wire, c.Enc = encodeFor(rt, ce, wire)
 			c.Enc = "ce=" + strings.TrimSpace(ce) + "/" + c.Enc
@@ -917,6 +951,9 @@ func genReq(thorough bool) func(rt *rapid.T) reqCase {
 			c.Header = append(c.Header, [2]evid.Str{"X-CH-DSN", evid.Str(rapid.SampledFrom([]string{"node1", "zzz", "", "clickhouse://x"}).Draw(rt, "dsn"))})
 		}
 		c.Body = wire
+		if fill != nil {
+			c.Body, c.Fill = head, fill
+		}
 
 		// probe: a well-formed push of another protocol; most of the time one that shares
 		// the insert services (and therefore the batch) with the request
@@ -964,4 +1001,74 @@ func pathVar(rt *rapid.T, label string) string {
 		return rapid.SampledFrom([]string{"_doc", "_bulk", "_create", "a b", "%", "é", "a/b", strings.Repeat("t", 300), hex.EncodeToString([]byte("idx"))}).Draw(rt, label)
 	}
 	return rapid.SampledFrom([]string{"logs", "idx-1", "my_index", "1"}).Draw(rt, label)
+}
+
+// ---- large bodies ---------------------------------------------------------------------------
+
+var fixedUnits = map[string]string{
+	"influx":    "cpu,host=a v=1 1705320000000000000\n",
+	"cf":        `{"EventType":"x","Outcome":"ok","EventTimestampMs":1705320000000}` + "\n",
+	"es-bulk":   `{"index":{"_index":"i"}}` + "\n" + `{"a":"b"}` + "\n",
+	"zipkin-nd": `{"traceId":"463ac35c9f6413ad48485a3953bb6124","id":"a2fb4a1d1a96d312","name":"get","timestamp":1705320000000000}` + "\n",
+	"zipkin":    `{"traceId":"463ac35c9f6413ad48485a3953bb6124","id":"a2fb4a1d1a96d312","name":"get","timestamp":1705320000000000,"tags":{"k":"v"}}`,
+	"dd-logs":   `{"message":"hello","ddtags":"a:b","service":"s","timestamp":1705320000000}`,
+}
+
+// fillFor turns the small valid body b into head + unit x n + tail of about 70 kB to 2.5 MB:
+// more than the 64 KiB read buffer of the streaming decoders (jx.Decode, bufio.Scanner,
+// telegraf's stream parser), some of them beyond the 1 MiB after which the response
+// builder hands a first part to the insert services while the rest is still being read.
+func fillFor(rt *rapid.T, family string, b *body, thorough bool) ([]byte, *fillSpec) {
+	sizes := []int{70_000, 150_000, 300_000, 700_000, 1_300_000}
+	if thorough {
+		sizes = append(sizes, 2_500_000)
+	}
+	target := pick(rt, "fill-size", sizes)
+	var head, unit, tail []byte
+	f := &fillSpec{Wrap: b.wrap}
+	switch family {
+	case "influx", "cf", "es-bulk", "zipkin-nd":
+		unit = bytes.TrimLeft(b.inner, "\r\n")
+		if len(bytes.TrimSpace(unit)) == 0 || uni(rt, "fill-fixed", 3) == 0 {
+			unit = []byte(fixedUnits[family])
+		}
+		if unit[len(unit)-1] != '\n' {
+			unit = append(append([]byte(nil), unit...), '\n')
+		}
+	case "zipkin", "dd-logs":
+		inner := bytes.TrimSpace(b.inner)
+		if len(inner) > 2 && inner[0] == '[' && inner[len(inner)-1] == ']' && len(bytes.TrimSpace(inner[1:len(inner)-1])) > 0 && uni(rt, "fill-fixed", 3) > 0 {
+			inner = inner[1 : len(inner)-1]
+		} else {
+			inner = []byte(fixedUnits[family])
+		}
+		head, unit, tail = []byte("["), append(append([]byte(nil), inner...), ','), append(append([]byte(nil), inner...), ']')
+	case "loki-json":
+		line := gen.JSONString(gen.HostileUTF8(rt, "fill-line")+gen.Filler(rapid.IntRange(0, 300).Draw(rt, "fill-pad"), 7), 0)
+		if rapid.Bool().Draw(rt, "fill-one-stream") {
+			// one stream, many values: handed to the response builder when the stream ends
+			head = []byte(`{"streams":[{"stream":{"job":"c05"},"values":[`)
+			unit = []byte(`["1705320000000000000",` + line + `],`)
+			tail = []byte(`["1705320000000000001","z"]]}]}`)
+		} else {
+			// many streams: the response builder is fed stream by stream
+			st := `{"stream":{"job":"c05","k":"v"},"values":[["1705320000000000000",` + line + `],["1705320000000000001","y"]]}`
+			head, unit, tail = []byte(`{"streams":[`), []byte(st+","), []byte(st+"]}")
+		}
+	case "dd-metrics":
+		sr := `{"metric":"m.c05","resources":[{"host":"h"}],"points":[{"timestamp":1705320000,"value":1.5},{"timestamp":1705320001,"value":2}]}`
+		head, unit, tail = []byte(`{"series":[`), []byte(sr+","), []byte(sr+"]}")
+	case "es-doc":
+		head, unit, tail = []byte(`{"msg":"`), bytes.Repeat([]byte("x"), 64), []byte(`"}`)
+	default:
+		// protobuf families and pprof: the top-level message is a sequence of repeated fields,
+		// so the concatenation of valid bodies is a body again (for pprof: at least a large one)
+		unit = b.inner
+		if len(unit) == 0 {
+			return nil, nil
+		}
+	}
+	f.Unit, f.Tail = unit, tail
+	f.N = target/len(unit) + 1
+	return head, f
 }
